@@ -1,4 +1,5 @@
 SPECIFICATION Spec
+CONSTANT MaxParked = 99
 CONSTANT NTok = 11
 CONSTANT Window = 10
 CONSTANT ReadyTokens = TRUE
